@@ -114,13 +114,17 @@ func (r *RIBModule) register(interest *spec.Interest, pitToken []byte, inFace ui
 		*expirationPeriod = time.Duration(*params.ExpirationPeriod) * time.Millisecond
 	}
 
-	table.Rib.AddEncRoute(params.Name, &table.Route{
+	if !registerRoute(params.Name, &table.Route{
 		FaceID:           faceID,
 		Origin:           origin,
 		Cost:             cost,
 		Flags:            flags,
 		ExpirationPeriod: expirationPeriod,
-	})
+	}) {
+		response = makeControlResponse(410, "Face does not exist", nil)
+		r.manager.sendResponse(response, interest, pitToken, inFace)
+		return
+	}
 	if expirationPeriod != nil {
 		core.LogInfo(r, "Created route for Prefix=", params.Name, ", FaceID=", faceID, ", Origin=", origin,
 			", Cost=", cost, ", Flags=0x", strconv.FormatUint(flags, 16), ", ExpirationPeriod=", expirationPeriod)
@@ -258,4 +262,21 @@ func (r *RIBModule) list(interest *spec.Interest, pitToken []byte, _ uint64) {
 	core.LogTrace(r, "Published RIB dataset version=", r.nextRIBDatasetVersion,
 		", containing ", len(segments), " segments")
 	r.nextRIBDatasetVersion++
+}
+
+// registerRoute adds the route unless its face does not exist (any more).
+// The face can be torn down between the existence check and the registration,
+// in which case its clean-up has run before the route existed: the face is
+// therefore checked again afterwards and the clean-up repeated if it is gone.
+// (Face removal takes the face out of the face table before it cleans the RIB.)
+func registerRoute(name enc.Name, route *table.Route) bool {
+	if face.FaceTable.Get(route.FaceID) == nil {
+		return false
+	}
+	table.Rib.AddEncRoute(name, route)
+	if face.FaceTable.Get(route.FaceID) == nil {
+		table.Rib.CleanUpFace(route.FaceID)
+		return false
+	}
+	return true
 }
